@@ -135,6 +135,7 @@ class Ctx:
         self.known_hits = []
         self.notes = []
         self.theorem_info = {}
+        self.group = None          # set by bin/check from the property module's GROUP
         self.known = [k for k in load_known() if k.get("property") == pid]
         if os.path.isdir(self.work):
             shutil.rmtree(self.work, ignore_errors=True)
@@ -340,7 +341,37 @@ class Ctx:
         path = self.write_replay(key, obj)
         self.violations.append((key, path, found, what))
 
+    def _auto_coqchk(self, coverage):
+        """Thorough tier: every check gets an independent coqchk pass over its property modules (CNN*.v of the
+        group) unless the property module already recorded one under coverage['coqchk']."""
+        have = coverage.get("coqchk")
+        if isinstance(have, dict) and have.get("axioms") is not None:
+            return
+        if self.tier != "thorough" or not self.group or self.replay is not None:
+            return
+        if os.path.realpath(self.repo) != "/repo":
+            return
+        gdir = os.path.join(VERIF, "coq", self.group)
+        mods = sorted(f[:-2] for f in os.listdir(gdir) if re.match(re.escape(self.pid) + r"[A-Za-z0-9_]*\.v$", f)
+                      and os.path.exists(os.path.join(gdir, f + "o")))
+        if not mods:
+            return
+        self.log("coqchk on", mods)
+        chk = self.coqchk(self.group, mods)
+        coverage["coqchk"] = chk
+        if isinstance(coverage.get("checker_cmd"), str):
+            coverage["checker_cmd"] += " ; " + chk["cmd"]
+        if not chk["ok"] or chk.get("axioms") != "<none>" or chk.get("type_in_type") != "<none>" \
+                or chk.get("unsafe_fixpoints") != "<none>" or chk.get("positivity_assumed") != "<none>":
+            if not self.violations:
+                self.violation("coqchk", dict(unchecked="coqchk on %s" % mods, detail=chk), False,
+                               "coqchk did not confirm an axiom-free, fully checked development: %s" % str(chk)[:300])
+
     def finish(self, level, coverage, assumptions):
+        try:
+            self._auto_coqchk(coverage)
+        except Exception as e:  # noqa: BLE001
+            self.notes.append({"coqchk_error": str(e)})
         wall = time.time() - self.t0
         ev = {
             "property_id": self.pid,
